@@ -127,6 +127,14 @@ class Gen:
                     # a character reference to '<' or '&' in an entity VALUE is expanded when the declaration is read, so the
                     # replacement text would hold markup characters and a reference to the entity would not be well-formed
                     ps = [p for p in ps if not (p[0] == "c" and int(p[1], p[2]) in (60, 38))]
+                    # what stood on both sides of a piece that was taken out is ONE run of character data now
+                    merged = []
+                    for p in ps:
+                        if p[0] == "t" and merged and merged[-1][0] == "t":
+                            merged[-1] = ("t", merged[-1][1] + p[1])
+                        else:
+                            merged.append(p)
+                    ps = merged
                     items.append(("Y", n, "i", ps))
                     if n not in self.entities:
                         self.entities.append(n)
